@@ -168,6 +168,7 @@ def c09(ctx):
     ctx.require("backend_full")
     range_hists(ctx, ["TypeInv", "StateInv"], "c09")
     chain_cases(ctx, "c09", ["StateInv", "StepInverse"])
+    symbol_cases(ctx, "huffman", 4, 3, "c15")      # out-of-alphabet symbols of Huffman codebooks
     model_cases(ctx, "uniform", "c09", uniform_cfgs(ctx))
     model_cases(ctx, "leaky", "c09", leaky_cfgs(ctx))
 
@@ -219,6 +220,9 @@ def c10(ctx):
 
 @prop("C12")
 def c12(ctx):
+    # the telescoped bound at the real presets (driver: random models incl. probabilities of 1 and 2^P-1 quanta)
+    ctx.vh("drive_bound", extra=["--n", "20000" if ctx.tier == "thorough" else "3000"])
+    ctx.require("default_preset_overhead_below_0.006")
     c12_ans(ctx)
     range_hists(ctx, ["TypeInv", "StateInv", "WordsBound", "StepBound"], "c12")
     ctx.require("bits_bound_evaluated")
